@@ -41,6 +41,17 @@ func main() {
 		*tier = "quick"
 	}
 	seed, _ := strconv.Atoi(os.Getenv("VERIF_SEED"))
+	if strings.HasPrefix(*dump, "phiarg:") {
+		p, err := core.Load(core.Config{Name: "default", Dir: *dir})
+		if err != nil {
+			fmt.Println(err)
+			os.Exit(2)
+		}
+		fp := strings.Split(strings.TrimPrefix(*dump, "phiarg:"), ":")
+		k, _ := strconv.Atoi(fp[3])
+		props.DebugPhiArg(&props.Run{P: p, E: core.NewEngine(p), R: core.NewReport("dbg", "quick", 0)}, fp[0], fp[1], fp[2], k)
+		return
+	}
 	if strings.HasPrefix(*dump, "leaves:") {
 		p, err := core.Load(core.Config{Name: "default", Dir: *dir})
 		if err != nil {
